@@ -467,4 +467,35 @@ def renameCD (cfg : SafeCfg) (tbl : Nat → Str) (sha : Str → Str) (cur : Str)
         | .error e => .error e
         | .ok n => .ok (joinOne (dirname cur) n)
 
+/-! ### FileWriterSetupTask._build_file_writer: from the option list to the namer -/
+
+/-- the choices of `--restrict-file-names` -/
+inductive Mode | windows | unix | lower | upper | ascii | nocontrol
+  deriving DecidableEq, Repr
+
+/-- `--no-directories` / `--force-directories` / neither (`args.use_directories`) -/
+inductive DirOpt | unset | force | no
+  deriving DecidableEq, Repr
+
+/-- `os_type`, `no_control`, `ascii_only`, `case` as the setup task derives them from
+`args.restrict_file_names` (a set of modes; `maxLen` = `args.max_filename_length`) -/
+def optionsToCfg (modes : List Mode) (maxLen : Int) : SafeCfg :=
+  { os := if modes.contains .windows then .windows else .unix
+    noControl := !modes.contains .nocontrol
+    asciiOnly := modes.contains .ascii
+    case := if modes.contains .lower then .lower else if modes.contains .upper then .upper else .none
+    maxLen := maxLen }
+
+/-- `use_dir` of the setup task -/
+def useDirOf (nUrls : Nat) (pageRequisites recursive : Bool) (d : DirOpt) : Bool :=
+  match d with
+  | .force => true
+  | .no => false
+  | .unset => nUrls != 1 || pageRequisites || recursive
+
+/-- the `PathNamer` the setup task builds -/
+def namerOfArgs (modes : List Mode) (maxLen : Int) (root index : Str) (nUrls : Nat)
+    (pageRequisites recursive : Bool) (d : DirOpt) (cut : Nat) (protocol hostname : Bool) : NamerCfg :=
+  ⟨optionsToCfg modes maxLen, root, index, useDirOf nUrls pageRequisites recursive d, cut, protocol, hostname⟩
+
 end Wpull.Path
